@@ -149,6 +149,32 @@ class World:
         mp.Lock = CLock
         mp.Condition = CCond
         mp.sleep = _faithful_sleep(w)
+        # a virtual clock: between any two synchronisation operations an arbitrary amount of time may pass (a pre-empted thread can be away for long),
+        # so whatever the module reads from the clock jumps by several seconds per scheduling step.  The reference implementation never reads it.
+        import time as _time
+
+        self.vclock = _time.monotonic()
+        self._clock_saved = {}
+        _clocks = {_time.monotonic: 1.0, _time.time: 1.0, _time.perf_counter: 1.0, _time.monotonic_ns: 1e9, _time.time_ns: 1e9, _time.perf_counter_ns: 1e9}
+        for name, val in list(vars(mp).items()):
+            if callable(val) and val in _clocks:
+                self._clock_saved[name] = val
+                unit = _clocks[val]
+                setattr(mp, name, (lambda unit=unit: type(unit)(w.vclock * unit) if unit == 1.0 else int(w.vclock * unit)))
+            elif val is _time:
+                self._clock_saved[name] = val
+
+                class _TimeProxy:
+                    def __getattr__(p, attr):
+                        real = getattr(_time, attr)
+                        if real in _clocks:
+                            unit = _clocks[real]
+                            return (lambda: w.vclock * unit) if unit == 1.0 else (lambda: int(w.vclock * unit))
+                        if attr == "sleep":
+                            return mp.sleep
+                        return real
+
+                setattr(mp, name, _TimeProxy())
 
         class Job:
             def __init__(j, pubs, k):
@@ -273,6 +299,7 @@ class World:
         return {"k": "step", "t": t}
 
     def step(self, t):
+        self.vclock += 3.0  # (see the virtual clock above)
         self.schedule.append(t)
         self.gates[t].release()
         self.ctl.acquire()
@@ -298,3 +325,5 @@ class World:
         for th in self.threads:
             th.join(2)
         mp.Lock, mp.Condition, mp.sleep = self.saved
+        for name, val in getattr(self, "_clock_saved", {}).items():
+            setattr(mp, name, val)
